@@ -183,19 +183,24 @@ def to_cli_mode(scen):
     """The commonest way JADE is used: no submission groups in the configuration, every submitter parameter given as an option of
     `jade submit-jobs` (-b -q -n -p -t -h ...).  One group, which JADE calls "default"."""
     g = dict(scen["groups"][0], name="default")
-    if g["time_based"]:
+    # a third of these runs give the parameters in a file instead (`submit-jobs -s submitter_params.json`, as written by
+    # `jade config submitter-params`), which supersedes the options
+    by_file = (len(scen["jobs"]) + sum(j["est"] for j in scen["jobs"])) % 3 == 0
+    if g["time_based"] and not by_file:
         g["batch"] = 500  # --per-node-batch-size may not be combined with --time-based-batching: JADE's default stays recorded
     scen["groups"] = [g]
     for j in scen["jobs"]:
         j["group"] = "default"
-    scen["cli_params"] = True
-    if scen.get("max_nodes") == 1:
+    scen["cli_params"] = "file" if by_file else True
+    if scen.get("max_nodes") == 1 and not by_file:
         scen["max_nodes"] = 2  # the option only accepts values >= 2
     return normalize(scen)
 
 
 def cli_options(scen):
     g = scen["groups"][0]
+    if scen.get("cli_params") == "file":
+        return ["-s", "submitter_params.json"] + (["-b", "1", "-n", "7"] if len(scen["jobs"]) % 2 else [])  # options given besides the file are superseded by it
     o = ["-h", "hpc_config.json", "-p", str(scen["poll"]), "-R", "none", "--reports" if scen["reports"] else "--no-reports"]
     o.append("--try-add-blocked-jobs" if g["try_add"] else "--no-try-add-blocked-jobs")
     if g["time_based"]:
@@ -266,7 +271,10 @@ def write_config(scen, root, registry):
             distributed_submitter=g.get("dsub", True),
             dry_run=scen.get("dry_run", False),
         )
-        if scen.get("cli_params"):
+        if scen.get("cli_params") == "file":
+            with open(os.path.join(root, "submitter_params.json"), "w") as f:
+                f.write(sp.json())
+        elif scen.get("cli_params"):
             with open(os.path.join(root, "hpc_config.json"), "w") as f:
                 f.write(hpc.json())
         else:
